@@ -24,6 +24,23 @@ Next == Len(parts) < NSlots /\ \E c \in Slots[Len(parts) + 1] : parts' = Append(
 Spec == Init /\ [][Next]_parts
 Complete == Len(parts) = NSlots
 
+\* A fixed corpus replayed in EVERY run: reproducers of fixed / recorded defects and shapes that random walks of
+\* the slot space reach rarely.  The first ten slots are given, only the document index varies.
+Nil(e) == [e EXCEPT !.nillable = TRUE]
+NoC == [k |-> "none"]
+CD(k, o, m) == Grp(k, o[1], o[2], <<El("c", "int", 1, 1), El("d", "string", m, 1)>>)
+Corpus == {
+  <<"seq", <<1, 1>>, El("a", "int", 1, 1), Nil(El("b", "string", 0, 1)), NoC, NONE, "qualified", FALSE, 1, "complex">>,             \* F23
+  <<"choice", <<0, 1>>, El("a", "Ints", 0, 1), El("b", "string", 0, 1), NoC, "urn:t", "qualified", FALSE, 2, "complex">>,           \* F31
+  <<"choice", <<0, U>>, El("a", "int", 1, 1), El("b", "string", 1, 1), NoC, "urn:t", "unqualified", FALSE, 1, "complex">>,          \* unqualified locals in a repeating choice
+  <<"seq", <<1, 1>>, El("a", "int", 0, U), El("b", "Kid", 1, 1), CD("choice", <<0, U>>, 1), "urn:t", "qualified", TRUE, 4, "complex">>,
+  <<"seq", <<1, 1>>, El("a", "IntOrStr", 1, U), El("b", "int", 0, 1), CD("seq", <<0, 1>>, 0), NONE, "unqualified", TRUE, 3, "complex">>,
+  <<"all", <<1, 1>>, El("a", "Color", 1, 1), Nil(El("b", "Kid", 0, 1)), NoC, "urn:t", "qualified", FALSE, 5, "complex">>,
+  <<"choice", <<1, 1>>, El("a", "date", 1, 1), [El("g", "string", 1, 1) EXCEPT !.ref = TRUE], CD("seq", <<1, 1>>, 0), "urn:t", "unqualified", FALSE, 2, "complex">>,
+  <<"seq", <<0, 1>>, El("a", "decimal", 1, U), El("b", "string", 1, 1), CD("seq", <<1, U>>, 1), "urn:t", "qualified", TRUE, 4, "complex">>,
+  <<"seq", <<1, 1>>, El("a", "boolean", 1, 1), El("b", "int", 1, 1), NoC, "urn:t", "qualified", TRUE, 4, "simpleContent">> }
+InitCorpus == \E c \in Corpus, i \in 0..MaxDocIdx : parts = Append(c, i)
+
 TopOcc == IF parts[1] = "all" THEN <<IF parts[2][1] = 0 THEN 0 ELSE 1, 1>> ELSE parts[2]
 AllFix(e) == IF parts[1] = "all" /\ e.k = "el" /\ e.max > 1 THEN [e EXCEPT !.max = 1, !.min = IF e.min > 1 THEN 1 ELSE e.min] ELSE e
 Root == Grp(parts[1], TopOcc[1], TopOcc[2],
